@@ -149,4 +149,270 @@ theorem C03_cell_number_round_trip (w : Nat) (t : List Char) (hw : 0 < w) (hne :
 example : parseUsize (trim (cell 5 "00420".toList)) = some 420 ∧ trim (cell 4 "CA".toList) = "CA".toList := by
   decide
 
+/-! ### whole numbers: digits written, digits read -/
+
+theorem digitChar_isDigit (d : Nat) (h : d < 10) :
+    isDigit (Char.ofNat (48 + d)) = true ∧ digitVal (Char.ofNat (48 + d)) = d := by
+  have : d = 0 ∨ d = 1 ∨ d = 2 ∨ d = 3 ∨ d = 4 ∨ d = 5 ∨ d = 6 ∨ d = 7 ∨ d = 8 ∨ d = 9 := by omega
+  rcases this with h | h | h | h | h | h | h | h | h | h <;> subst h <;> decide
+
+theorem digitsVal_snoc (l : List Char) (c : Char) : digitsVal (l ++ [c]) = digitsVal l * 10 + digitVal c := by
+  unfold digitsVal; rw [List.foldl_append]; rfl
+
+theorem natDigits_spec (n : Nat) :
+    natDigits n ≠ [] ∧ (natDigits n).all isDigit = true ∧ digitsVal (natDigits n) = n := by
+  induction n using Nat.strongRecOn with
+  | _ n ih =>
+    rw [natDigits]
+    split
+    · next h =>
+      have := digitChar_isDigit n h
+      refine ⟨by simp, by simp [this.1], ?_⟩
+      simp [digitsVal, this.2]
+    · next h =>
+      have h10 : n / 10 < n := by omega
+      obtain ⟨_, hall, hval⟩ := ih _ h10
+      have hd := digitChar_isDigit (n % 10) (by omega)
+      refine ⟨by simp, ?_, ?_⟩
+      · rw [List.all_append, hall]; simp [hd.1]
+      · rw [digitsVal_snoc, hval, hd.2]; omega
+
+theorem natDigits_length (w : Nat) : ∀ n, n < 10 ^ (w + 1) → (natDigits n).length ≤ w + 1 := by
+  induction w with
+  | zero =>
+    intro n hn
+    rw [natDigits, if_pos (by simpa using hn)]; simp
+  | succ w ih =>
+    intro n hn
+    rw [natDigits]
+    split
+    · simp
+    · have : n / 10 < 10 ^ (w + 1) := by
+        rw [Nat.pow_succ] at hn
+        omega
+      have := ih _ this
+      simp only [List.length_append, List.length_singleton]; omega
+
+/-- **a whole number survives its field**: any number below `10^w` (and below 2^64), written with `to_string`
+into a cell of width `w`, trimmed and parsed by the reader, is the same number (serial numbers, residue
+numbers, counts) -/
+theorem C03_nat_field_round_trip (w n : Nat) (hfit : n < 10 ^ (w + 1)) (hn : n < 2 ^ 64) :
+    parseUsize (trim (cell (w + 1) (natDigits n))) = some n := by
+  obtain ⟨hne, hall, hval⟩ := natDigits_spec n
+  rw [C03_cell_number_round_trip (w + 1) (natDigits n) (Nat.succ_pos w) hne (natDigits_length w n hfit) hall,
+    parseUsize_digits _ hne hall, hval, if_pos hn]
+
+/-- the five-column serial number field -/
+example (n : Nat) (h : n ≤ 99999) : parseUsize (trim (cell 5 (natDigits n))) = some n :=
+  C03_nat_field_round_trip 4 n (by omega) (by omega)
+
+/-! ### fixed-point numbers: `{:W.D}` written, `parse::<f64>` read -/
+
+theorem foldl_digits_acc (b : List Char) (acc : Nat) :
+    b.foldl (fun n c => n * 10 + digitVal c) acc = acc * 10 ^ b.length + b.foldl (fun n c => n * 10 + digitVal c) 0 := by
+  induction b generalizing acc with
+  | nil => simp
+  | cons c r ih =>
+    simp only [List.foldl_cons, List.length_cons]
+    rw [ih (acc * 10 + digitVal c), ih (0 * 10 + digitVal c), Nat.pow_succ]
+    simp only [Nat.zero_mul, Nat.zero_add, Nat.add_mul]
+    rw [Nat.mul_assoc, Nat.mul_comm 10 (10 ^ r.length)]
+    omega
+
+theorem digitsVal_append (a b : List Char) : digitsVal (a ++ b) = digitsVal a * 10 ^ b.length + digitsVal b := by
+  unfold digitsVal
+  rw [List.foldl_append, foldl_digits_acc]
+
+theorem digitsVal_zeros (k : Nat) (l : List Char) : digitsVal (List.replicate k '0' ++ l) = digitsVal l := by
+  induction k with
+  | zero => rfl
+  | succ k ih =>
+    rw [List.replicate_succ, List.cons_append]
+    unfold digitsVal at ih ⊢
+    simp only [List.foldl_cons]
+    have : (0 * 10 + digitVal '0') = 0 := by decide
+    rw [this]; exact ih
+
+theorem span_stop {α : Type} (p : α → Bool) (l : List α) (x : α) (rest : List α)
+    (hl : l.all p = true) (hx : p x = false) :
+    (l ++ x :: rest).takeWhile p = l ∧ (l ++ x :: rest).dropWhile p = x :: rest := by
+  induction l with
+  | nil => simp [hx]
+  | cons a r ih =>
+    simp only [List.all_cons, Bool.and_eq_true] at hl
+    have ih' := ih hl.2
+    simp only [List.cons_append, List.takeWhile_cons, List.dropWhile_cons, hl.1, if_true]
+    exact ⟨by rw [ih'.1], ih'.2⟩
+
+theorem span_all {α : Type} (p : α → Bool) (l : List α) (hl : l.all p = true) :
+    l.takeWhile p = l ∧ l.dropWhile p = [] := by
+  induction l with
+  | nil => simp
+  | cons a r ih =>
+    simp only [List.all_cons, Bool.and_eq_true] at hl
+    have ih' := ih hl.2
+    simp only [List.takeWhile_cons, List.dropWhile_cons, hl.1, if_true]
+    exact ⟨by rw [ih'.1], ih'.2⟩
+
+theorem digit_facts (d : Char) (h : isDigit d = true) :
+    d ≠ '-' ∧ d ≠ '+' ∧ lowerAscii d ≠ 'i' ∧ lowerAscii d ≠ 'n' := by
+  simp only [isDigit, Bool.and_eq_true, decide_eq_true_eq] at h
+  have h1 : 48 ≤ d.toNat := by simpa using h.1
+  have h2 : d.toNat ≤ 57 := by simpa using h.2
+  have hl : lowerAscii d = d := by
+    unfold lowerAscii
+    rw [if_neg]
+    intro hc
+    have : 65 ≤ d.toNat := by simpa using hc.1
+    omega
+  rw [hl]
+  refine ⟨?_, ?_, ?_, ?_⟩ <;> (intro hc; subst hc; revert h1 h2; decide)
+
+/-- `parse::<f64>` of an unsigned decimal `digits.digits` -/
+theorem parseF64_plain (ipd fpd : List Char) (hi0 : ipd ≠ []) (hi : ipd.all isDigit = true)
+    (hf : fpd.all isDigit = true) :
+    parseF64 (ipd ++ '.' :: fpd) = some (.fin (digitsVal (ipd ++ fpd) : Int) (-(fpd.length : Int))) := by
+  obtain ⟨d, r, rfl⟩ : ∃ d r, ipd = d :: r := by
+    cases ipd with
+    | nil => exact absurd rfl hi0
+    | cons d r => exact ⟨d, r, rfl⟩
+  have hd : isDigit d = true := by simp only [List.all_cons, Bool.and_eq_true] at hi; exact hi.1
+  obtain ⟨hm, hp, hli, hln⟩ := digit_facts d hd
+  have hdot : isDigit '.' = false := by decide
+  have hsp := span_stop isDigit (d :: r) '.' fpd hi hdot
+  have hfp := span_all isDigit fpd hf
+  unfold parseF64
+  split
+  · next neg body hmatch =>
+    -- which branch of the sign match was taken
+    split at hmatch
+    · next r' heq => cases heq; exact absurd rfl hm
+    · next r' heq => cases heq; exact absurd rfl hp
+    · next r' =>
+      cases hmatch
+      simp only
+      have hinf : (List.map lowerAscii (d :: r ++ '.' :: fpd) == "inf".toList) = false := by
+        simp only [List.cons_append, List.map_cons]
+        apply beq_false_of_ne
+        intro hc
+        have := (List.cons.inj hc).1
+        exact hli this
+      have hinf2 : (List.map lowerAscii (d :: r ++ '.' :: fpd) == "infinity".toList) = false := by
+        simp only [List.cons_append, List.map_cons]
+        apply beq_false_of_ne
+        intro hc
+        have := (List.cons.inj hc).1
+        exact hli this
+      have hnan : (List.map lowerAscii (d :: r ++ '.' :: fpd) == "nan".toList) = false := by
+        simp only [List.cons_append, List.map_cons]
+        apply beq_false_of_ne
+        intro hc
+        have := (List.cons.inj hc).1
+        exact hln this
+      simp only [hinf, hinf2, hnan, Bool.or_self, Bool.false_eq_true, if_false, hsp.1, hsp.2, hfp.1, hfp.2]
+      simp
+
+/-- … and of a negative one -/
+theorem parseF64_minus (ipd fpd : List Char) (hi0 : ipd ≠ []) (hi : ipd.all isDigit = true)
+    (hf : fpd.all isDigit = true) :
+    parseF64 ('-' :: (ipd ++ '.' :: fpd)) = some (.fin (-1 * (digitsVal (ipd ++ fpd) : Int)) (-(fpd.length : Int))) := by
+  obtain ⟨d, r, rfl⟩ : ∃ d r, ipd = d :: r := by
+    cases ipd with
+    | nil => exact absurd rfl hi0
+    | cons d r => exact ⟨d, r, rfl⟩
+  have hd : isDigit d = true := by simp only [List.all_cons, Bool.and_eq_true] at hi; exact hi.1
+  obtain ⟨_, _, hli, hln⟩ := digit_facts d hd
+  have hdot : isDigit '.' = false := by decide
+  have hsp := span_stop isDigit (d :: r) '.' fpd hi hdot
+  have hfp := span_all isDigit fpd hf
+  unfold parseF64
+  split
+  · next neg body hmatch =>
+    split at hmatch
+    · next r' heq =>
+      cases heq
+      cases hmatch
+      simp only
+      have hinf : (List.map lowerAscii (d :: r ++ '.' :: fpd) == "inf".toList) = false := by
+        simp only [List.cons_append, List.map_cons]
+        apply beq_false_of_ne
+        intro hc; exact hli (List.cons.inj hc).1
+      have hinf2 : (List.map lowerAscii (d :: r ++ '.' :: fpd) == "infinity".toList) = false := by
+        simp only [List.cons_append, List.map_cons]
+        apply beq_false_of_ne
+        intro hc; exact hli (List.cons.inj hc).1
+      have hnan : (List.map lowerAscii (d :: r ++ '.' :: fpd) == "nan".toList) = false := by
+        simp only [List.cons_append, List.map_cons]
+        apply beq_false_of_ne
+        intro hc; exact hln (List.cons.inj hc).1
+      simp only [hinf, hinf2, hnan, Bool.or_self, Bool.false_eq_true, if_false, hsp.1, hsp.2, hfp.1, hfp.2]
+      simp
+    · next r' heq => cases heq
+    · next r' hne1 hne2 => exact absurd rfl (hne1 _)
+
+theorem trim_left_padded (s : List Char) (k : Nat)
+    (hh : ∀ c, s.head? = some c → isRustWs c = false)
+    (hl : ∀ c, s.getLast? = some c → isRustWs c = false) :
+    trim (List.replicate k ' ' ++ s) = s := by
+  unfold trim trimEnd trimStart
+  rw [dropWhile_replicate_append isRustWs ' ' (by decide) k, dropWhile_head_neg isRustWs s hh,
+    dropWhile_head_neg isRustWs s.reverse (by intro c hc; rw [List.head?_reverse] at hc; exact hl c hc),
+    List.reverse_reverse]
+
+/-- **a fixed-point number survives its field**: `format!("{:W.D}", v)` (1 ≤ D ≤ 6) of a value given in units
+of 10⁻⁶, trimmed and parsed by the reader, is the decimal `± q · 10^-D` with `q` the magnitude rounded to `D`
+decimals — the original rounded to its column's precision, whatever the width -/
+theorem C03_fixed_field_round_trip (v : Int) (width dec : Nat) (hd : 1 ≤ dec) (hd6 : dec ≤ 6) :
+    let q : Nat := (v.natAbs + 10 ^ (6 - dec) / 2) / 10 ^ (6 - dec)
+    parseF64 (trim (fmtFixed v width dec)) =
+      some (.fin (if v < 0 then -1 * (q : Int) else (q : Int)) (-(dec : Int))) := by
+  intro q
+  have hdec0 : ¬ dec = 0 := by omega
+  obtain ⟨hine, hiall, hival⟩ := natDigits_spec (q / 10 ^ dec)
+  obtain ⟨hfne, hfall, hfval⟩ := natDigits_spec (q % 10 ^ dec)
+  have hflen : (natDigits (q % 10 ^ dec)).length ≤ dec := by
+    obtain ⟨k, rfl⟩ : ∃ k, dec = k + 1 := ⟨dec - 1, by omega⟩
+    exact natDigits_length k _ (Nat.mod_lt _ (Nat.pow_pos (by decide)))
+  -- the digits after the point
+  let fpd := List.replicate (dec - (natDigits (q % 10 ^ dec)).length) '0' ++ natDigits (q % 10 ^ dec)
+  have hfpall : fpd.all isDigit = true := by
+    show (List.replicate _ '0' ++ _).all isDigit = true
+    rw [List.all_append, hfall, Bool.and_true, List.all_replicate]
+    simp [show isDigit '0' = true by decide]
+  have hfplen : fpd.length = dec := by
+    show (List.replicate _ '0' ++ _).length = dec
+    simp only [List.length_append, List.length_replicate]; omega
+  have hval : digitsVal (natDigits (q / 10 ^ dec) ++ fpd) = q := by
+    rw [digitsVal_append, hfplen, hival]
+    show _ + digitsVal (List.replicate _ '0' ++ _) = q
+    rw [digitsVal_zeros, hfval]
+    exact Nat.div_add_mod' q (10 ^ dec)
+  have hnw : ∀ c ∈ natDigits (q / 10 ^ dec) ++ '.' :: fpd, isRustWs c = false := by
+    intro c hc
+    simp only [List.mem_append, List.mem_cons] at hc
+    rcases hc with hc | rfl | hc
+    · exact isDigit_not_ws c (List.all_eq_true.mp hiall c hc)
+    · decide
+    · exact isDigit_not_ws c (List.all_eq_true.mp hfpall c hc)
+  have hlast : ∀ c, (natDigits (q / 10 ^ dec) ++ '.' :: fpd).getLast? = some c → isRustWs c = false :=
+    fun c hc => hnw c (List.mem_of_mem_getLast? hc)
+  unfold fmtFixed
+  simp only [hdec0, if_false]
+  by_cases hneg : v < 0
+  · simp only [hneg, if_true]
+    rw [trim_left_padded _ _ (by intro c hc; cases hc; decide)
+      (by
+        intro c hc
+        have hm := List.mem_of_mem_getLast? hc
+        simp only [List.mem_cons] at hm
+        rcases hm with rfl | hm
+        · decide
+        · exact hnw c hm)]
+    rw [parseF64_minus _ fpd hine hiall hfpall, hval, hfplen]
+  · simp only [hneg, if_false]
+    rw [trim_left_padded _ _
+      (fun c hc => hnw c (List.mem_of_mem_head? hc))
+      hlast]
+    rw [parseF64_plain _ fpd hine hiall hfpall, hval, hfplen]
+
 end PdbModel
